@@ -88,7 +88,9 @@ var QIdents = []strForm{{`"a\tb"`, `a\tb`}, {`"C:\data"`, `C:\data`}, {`"dom\use
 var Backticks = []strForm{{"`abc`", "abc"}, {"`select`", "select"}, {"`my col`", "my col"}, {"`order`", "order"}}
 
 var DollarStrs = []strForm{{"$$body$$", "body"}, {"$tag$ it's $tag$", " it's "}, {"$q$a $$ b$q$", "a $$ b"}, {"$$$$", ""}, {"$$order by$$", "order by"}, {"$k$LEFT JOIN$k$", "LEFT JOIN"},
-	{"$fn$SELECT $1 + $2$fn$", "SELECT $1 + $2"}, {"$$SELECT $1$$", "SELECT $1"}, {"$q$cost in $us$q$", "cost in $us"}, {"$a$x$1$a$", "x$1"}, {"$a$ $b$ inner $b$ $a$", " $b$ inner $b$ "}}
+	{"$fn$SELECT $1 + $2$fn$", "SELECT $1 + $2"}, {"$$SELECT $1$$", "SELECT $1"}, {"$q$cost in $us$q$", "cost in $us"}, {"$a$x$1$a$", "x$1"}, {"$a$ $b$ inner $b$ $a$", " $b$ inner $b$ "},
+	// eighth round: line breaks inside the body (every later position depends on them being counted)
+	{"$$two\nlines$$", "two\nlines"}, {"$body$\nBEGIN\n  RETURN 1;\nEND\n$body$", "\nBEGIN\n  RETURN 1;\nEND\n"}, {"$$\n$$", "\n"}, {"$t$a\n\n\tb$t$", "a\n\n\tb"}}
 
 func isWordByte(b byte) bool {
 	return b == '_' || b >= '0' && b <= '9' || b >= 'a' && b <= 'z' || b >= 'A' && b <= 'Z' || b >= 0x80
